@@ -90,7 +90,7 @@ TRUSTED = [
     "Python's fnmatch for patterns with '[' (outside the model; generated patterns use literals, * and ? only)",
 ]
 ASSUMPTIONS = [
-    "sample periods are integer nanoseconds >= 1 (what Continuous.to_dataset can store)",
+    "sample periods are integer nanoseconds >= 1 (what Continuous.to_dataset can store) and <= 2^50 ns (13 days; the range of period_round_trip — period_bound_witness shows a bound is needed); time-series steps <= 2^53 ns",
     "attributes other than Kind/Start/Stop/Sample rate are not required to survive a CROPPED export (the property speaks of channel equality there)",
 ]
 
